@@ -1,4 +1,4 @@
-import BppProofs.Lemmas.GraphRefine
+import BppProofs.Lemmas.GraphSpec
 /-!
 # C14 — graph and association views stay consistent with a reference multigraph
 (src/Bpp/Graph/GlobalGraph.{h,cpp}, AssociationGraphImplObserver.h)
@@ -172,6 +172,114 @@ theorem absent_raises (g : G) :
     · simp [G.apply, createNodeOnEdge, hf, GOut.forget, GOut.raised]
     · simp [G.apply, createNodeFromEdge, h, GOut.forget, GOut.raised]
   · intro n h; simp [G.apply, setRoot, h, GOut.raised]
+
+/-! ## The implementation refines the reference multigraph
+
+`Graph.Spec` (BppModel/Graph.lean) keeps nodes and edge triples only and defines every operation
+from scratch on them.  `abs g` forgets the node rows.  `Refines g r o` : reference outcome `r` and
+implementation outcome `o` agree — both raise and the implementation is left unchanged, or both
+succeed, return the same ids, and `abs` of the new state is the new reference. -/
+
+/-- **refines_spec**: the abstraction function commutes with every operation, on every consistent
+state (hence, by `consistent_inv`, on every reachable state) -/
+theorem refines_spec (g : G) (hc : Consistent g) (op : Op) : Refines g (g.abs.applyR op) (g.applyR op) :=
+  applyR_refines hc op
+
+/-- … along every history: running the reference on `abs` of the empty graph gives `abs` of the
+implementation's state, operation by operation (a raising operation leaves both unchanged) -/
+theorem refines_spec_history (d : Bool) (ops : List Op) :
+    ((Graph.empty d).run ops).abs = ops.foldl (fun s op => match s.applyR op with | some r => r.2 | none => s) (Graph.empty d).abs := by
+  suffices h : ∀ g, Consistent g → (g.run ops).abs = ops.foldl (fun s op => match s.applyR op with | some r => r.2 | none => s) g.abs from
+    h _ (consistent_empty d)
+  induction ops with
+  | nil => intro g _; rfl
+  | cons op r ih =>
+    intro g hc
+    have hstep := consistent_step g hc op
+    simp only [G.run, List.foldl_cons]
+    have hr := refines_spec g hc op
+    have habs : (g.step op).abs = (match g.abs.applyR op with | some r => r.2 | none => g.abs) := by
+      unfold G.step
+      rw [← applyR_forget]
+      unfold Refines at hr
+      cases hs : g.abs.applyR op with
+      | none => rw [hs] at hr; rw [hr]; rfl
+      | some p =>
+        obtain ⟨v, s'⟩ := p
+        rw [hs] at hr
+        obtain ⟨g', h1, h2, _⟩ := hr
+        rw [h1]; exact h2
+    rw [← habs]
+    exact ih _ hstep
+
+/-- **queries agree**: on a consistent graph every query answers what the reference computes from
+its nodes and edge triples alone: the row of each node (hence outgoing / incoming neighbours and
+edges, neighbours, edges, degree, counts, leaf test and the per-node iterators, which are all
+functions of the row and the directed flag — `RowQ`), the end points of an edge, the edge between
+two nodes in one or either order, the node and edge lists -/
+theorem queries_agree (g : G) (hc : Consistent g) :
+    (∀ n, g.rowOf n = g.abs.rowOf n) ∧
+    (∀ e, g.getNodes e = g.abs.edgeNodes e) ∧
+    (∀ a b, g.getEdge a b = g.abs.edgeBetween a b) ∧
+    (∀ a b, g.getAnyEdge a b = g.abs.getAnyEdge a b) ∧
+    g.allNodes = g.abs.nodes ∧ g.allEdges = g.abs.edges.map (·.1) ∧
+    g.directed = g.abs.directed := by
+  refine ⟨fun n => (abs_rowOf hc n).symm, fun e => (abs_edgeNodes g e).symm, fun a b => (abs_edgeBetween hc a b).symm,
+    ?_, rfl, ?_, rfl⟩
+  · intro a b
+    simp only [G.getAnyEdge, G.getEdge, Spec.getAnyEdge, abs_edgeBetween hc]
+  · simp only [G.allEdges, abs_edges]; rfl
+
+/-- leaves and inner nodes, list versions -/
+theorem leaves_agree (g : G) (hc : Consistent g) :
+    g.allLeaves = g.abs.allLeaves ∧ g.allInnerNodes = g.abs.allInnerNodes := by
+  have hrow : ∀ p ∈ g.nodes, g.abs.row p.1 = p.2 := by
+    intro p hp
+    have hf := (mem_iff_find hc.sorted.nodes p.1 p.2).mp hp
+    have := abs_rowOf hc p.1
+    simp only [Spec.rowOf, G.rowOf, hf] at this
+    split at this
+    · injection this
+    · cases this
+  have hd : g.abs.directed = g.directed := rfl
+  constructor
+  · simp only [G.allLeaves, Spec.allLeaves, hd]
+    show _ = List.filter _ (g.nodes.map (·.1))
+    rw [List.filter_map]
+    congr 1
+    apply List.filter_congr
+    intro p hp
+    simp only [Function.comp, hrow p hp]
+  · simp only [G.allInnerNodes, Spec.allInnerNodes]
+    show _ = List.filter _ (g.nodes.map (·.1))
+    rw [List.filter_map]
+    congr 1
+    apply List.filter_congr
+    intro p hp
+    have := hrow p hp
+    simp only [Function.comp]
+    have e1 : g.abs.outPairs p.1 = p.2.out := by
+      have : (g.abs.row p.1).out = p.2.out := by rw [this]
+      exact this
+    rw [e1]
+
+/-- **iterators_enumerate**: an iterator yields exactly the sequence the list query returns
+(per-node iterators on an existing node; on an absent node the list query raises and the iterator
+is undefined behaviour) -/
+theorem iterators_enumerate (g : G) (n : Nat) :
+    (∀ r, g.rowOf n = some r →
+      RowQ.iter (fun r => AL.keys r.out) (g.rowOf n) = .ok ((g.outNeighbors n).getD []) ∧
+      RowQ.iter (fun r => AL.keys r.inn) (g.rowOf n) = .ok ((g.inNeighbors n).getD []) ∧
+      RowQ.iter (fun r => AL.vals r.out) (g.rowOf n) = .ok ((g.outEdges n).getD []) ∧
+      RowQ.iter (fun r => AL.vals r.inn) (g.rowOf n) = .ok ((g.inEdges n).getD []) ∧
+      g.outNeighbors n = some (AL.keys r.out)) ∧
+    (g.rowOf n = none → g.outNeighbors n = none ∧ RowQ.iter (fun r => AL.keys r.out) (g.rowOf n) = .ub) := by
+  constructor
+  · intro r hr
+    simp [RowQ.iter, G.outNeighbors, G.inNeighbors, G.outEdges, G.inEdges, RowQ.outNeighbors, RowQ.inNeighbors,
+      RowQ.outEdges, RowQ.inEdges, hr]
+  · intro hr
+    simp [RowQ.iter, G.outNeighbors, RowQ.outNeighbors, hr]
 
 /-! ## Non-vacuity -/
 
